@@ -150,6 +150,119 @@ def runs_of(seq):
     return out
 
 
+
+def q_var(vals):
+    """population variance of a flat list of Fraction | None (None if any missing / empty)"""
+    if not vals or any(v is None for v in vals):
+        return None
+    mu = sum(vals, Fr(0)) / len(vals)
+    return sum(((v - mu) ** 2 for v in vals), Fr(0)) / len(vals)
+
+
+def q_sqrt(q):
+    """exact rational square root or None"""
+    if q is None or q < 0:
+        return None
+    a, b = math.isqrt(q.numerator), math.isqrt(q.denominator)
+    return Fr(a, b) if a * a == q.numerator and b * b == q.denominator else None
+
+
+def q_lt_std(metric, d, s, var):
+    """d < s * sqrt(var), decided exactly (d in the metric's comparison units)"""
+    if d is None or var is None or s <= 0:
+        return False
+    return (d if metric == "euclidean" else d * d) < s * s * var
+
+
+def q_normalize(series):
+    """normalize_time_series in Q: list of rows -> (rows, exact?)  (None: irrational std)"""
+    a = np.asarray(series, dtype=float)
+    if a.ndim == 1:
+        a = a.reshape(-1, 1)
+    conv = lambda v: None if math.isnan(v) else Fr(float(v))  # noqa
+    cols = []
+    for j in range(a.shape[1]):
+        col = [conv(v) for v in a[:, j]]
+        var = q_var(col)
+        if var is None:
+            cols.append([None] * len(col))
+            continue
+        mu = sum(col, Fr(0)) / len(col)
+        if var == 0:
+            cols.append([v - mu for v in col])
+            continue
+        sd = q_sqrt(var)
+        if sd is None:
+            return None
+        cols.append([(v - mu) / sd for v in col])
+    return [[cols[j][i] for j in range(a.shape[1])] for i in range(a.shape[0])]
+
+
+def rows_to_array(rows):
+    return np.array([[np.nan if v is None else float(v) for v in r] for r in rows],
+                    dtype=float).reshape(len(rows), -1)
+
+
+def ref_adaptive(D, kA, order):
+    """the adaptive-neighbourhood construction as documented ([Xu2008], processing order
+    `order`): in round i every state, in the given order, is linked (symmetrically) to its
+    nearest neighbour beyond the i-th it is not yet linked to.  Rows of D without ties."""
+    n = len(D)
+    nb = [sorted(range(n), key=lambda j: D[i][j]) for i in range(n)]
+    R = [[0] * n for _ in range(n)]
+    for i in range(kA):
+        for l in order:
+            k = i + 1
+            while k < n and R[l][nb[l][k]]:
+                k += 1
+            if k < n:
+                R[l][nb[l][k]] = R[nb[l][k]][l] = 1
+    return R
+
+
+STD_BLOCKS = ([-2, 2], [-4, 1, 1, 1, 1], [4, -1, -1, -1, -1])
+
+
+def gen_exact_std(rng, n, d=1, wide=False):
+    """(n, d) series whose columns all have mean c and standard deviation exactly 2a
+    (blocks of mean 0 / variance 4, shuffled): np.std, the normalisation and every
+    distance are exact in float32; n = 1, 3: a constant series (std 0)."""
+    if wide and rng.random() < 0.5:
+        a = Fr(2) ** rng.randrange(-12, 13)
+        c = Fr(0)
+    else:
+        a = rng.choice([Fr(1, 4), Fr(1, 2), Fr(1), Fr(2), Fr(3, 2), Fr(3), Fr(5, 2), Fr(5)])
+        c = Fr(rng.randrange(0, 13), 2) if rng.random() < 0.7 else Fr(0)
+    cols = []
+    for _ in range(d):
+        qs = [q for q in range(n // 5 + 1) if (n - 5 * q) % 2 == 0]
+        if not qs:
+            cols.append([c] * n)
+            continue
+        q = rng.choice(qs)
+        vals = [-2, 2] * ((n - 5 * q) // 2)
+        for _ in range(q):
+            vals += rng.choice(STD_BLOCKS[1:])
+        rng.shuffle(vals)
+        cols.append([c + a * v for v in vals])
+    return np.array([[float(cols[j][i]) for j in range(d)] for i in range(n)], dtype=float)
+
+
+def caller_array(rng, a):
+    """the same numbers as the caller may hold them: float64 / float32, C order or a
+    strided view of a larger array"""
+    r = rng.random()
+    a = np.asarray(a, dtype=float)
+    if r < 0.35:
+        return a.astype(np.float32)
+    if r < 0.5:
+        big = np.zeros((2 * a.shape[0],) + a.shape[1:], dtype=rng.choice([np.float32, np.float64]))
+        big[::2] = a
+        return big[::2]
+    if r < 0.6 and a.ndim == 2:
+        return np.asfortranarray(a)
+    return a.copy()
+
 # --------------------------------------------------------------------------
 # generators
 # --------------------------------------------------------------------------
@@ -265,7 +378,7 @@ def run(ctx):
                                       InterSystemRecurrenceNetwork)
     rng = ctx.rng
     quick = ctx.tier == "quick"
-    scale = 4 if quick else 40
+    scale = 8 if quick else 100
     ctx.rule = ("half-integer series (length 1..10 quick / ..17 thorough, 1-3 columns or delay "
                 "embedding dim 1-3, tau 1-3, NaN patterns), thresholds k/4 (ties with distances "
                 "included, also 0 and negative), dyadic rates k/16 incl. 0 and 1, lags -4..4 and "
@@ -507,7 +620,7 @@ def run(ctx):
             reqs.append(req)
         try:
             with np.errstate(all="ignore"):
-                obj = (RecurrenceNetwork if net else RecurrencePlot)(ts.copy(), **kw)
+                obj = (RecurrenceNetwork if net else RecurrencePlot)(caller_array(rng, ts), **kw)
         except Exception as ex:  # noqa
             if in_corr:
                 impl.append(exc_name(ex))
@@ -595,7 +708,7 @@ def run(ctx):
         ctx.count(f"{cls}:adaptive")
         try:
             obj = (RecurrenceNetwork if net else RecurrencePlot)(
-                ts.copy(), metric=metric, adaptive_neighborhood_size=kA, silence_level=3)
+                caller_array(rng, ts), metric=metric, adaptive_neighborhood_size=kA, silence_level=3)
         except Exception as ex:  # noqa
             ctx.case(("adaptive-obj", n, kA, ts.tobytes().hex(), metric), False)
             ctx.fail(dict(kind="adaptive", cls=cls, error=type(ex).__name__),
@@ -630,6 +743,48 @@ def run(ctx):
                 ctx.fail(dict(kind="network", cls=cls, spec="adaptive", missing=False),
                          f"{cls}: adjacency is not the recurrence matrix without its diagonal", replay)
         check_rqa(ctx, obj, R, cls, dict(spec="adaptive", missing=False), replay)
+        # correspondence at the object level (argsort + kernel + stride), rows without ties:
+        # the constructor, then the setter with a caller-chosen processing order
+        if all(len(set(r)) == len(r) for r in D):
+            ctx.count("adaptive-object in correspondence")
+            if net:
+                reqs.append(f"rnx 0 {metric} 0 - a:{kA} - {enc_vmat(ts)}")
+                impl.append(f"N={int(obj.N)} A={enc_bmat(obj.adjacency)}")
+            else:
+                reqs.append(f"rpx {metric} 0 0 - a:{kA} - {enc_vmat(ts)}")
+                impl.append(f"N={int(obj.N)} M={int(obj.N)} R={enc_bmat(R)}")
+            kB = rng.randrange(0, n + 2)
+            order = list(range(n))
+            rng.shuffle(order)
+            if rng.random() < 0.1:
+                order = order[:-1]              # too short: IndexError as soon as a round runs
+            ordtxt = ",".join(map(str, order)) or "-"
+            try:
+                obj.set_adaptive_neighborhood_size(kB, order=np.array(order, dtype=np.int64))
+                R2 = np.asarray(obj.recurrence_matrix())
+                got = (f"N={int(obj.N)} A={enc_bmat(obj.adjacency)}" if net else
+                       f"N={int(obj.N)} M={int(obj.N)} R={enc_bmat(R2)}")
+                if len(order) == n and R2.tolist() != ref_adaptive(D, kB, order):
+                    ctx.fail(dict(kind="adaptive", cls=cls, issue="order"),
+                             f"{cls}.set_adaptive_neighborhood_size({kB}, order={order}) is not the "
+                             "documented construction for that processing order",
+                             dict(replay, setter_arg=kB, order=order, R=enc_bmat(R2)))
+                if len(order) == n and (not np.array_equal(R2, R2.T) or
+                                        ((R2.sum(axis=1) - np.diag(R2)) < min(kB, n - 1)).any()):
+                    ctx.fail(dict(kind="adaptive", cls=cls, issue="count-or-symmetry"),
+                             f"{cls}.set_adaptive_neighborhood_size({kB}, order={order}): asymmetric "
+                             f"or a state with fewer than min({kB}, n-1) neighbours",
+                             dict(replay, setter_arg=kB, order=order, R=enc_bmat(R2)))
+            except Exception as ex:  # noqa
+                got = exc_name(ex)
+                if len(order) == n:
+                    ctx.fail(dict(kind="adaptive", cls=cls, error=type(ex).__name__, step="setter"),
+                             f"{cls}.set_adaptive_neighborhood_size({kB}, order=permutation) raised "
+                             f"{type(ex).__name__}: {ex}", dict(replay, setter_arg=kB, order=order))
+            if len(order) and not (net and got.startswith("raise")):
+                reqs.append((f"rnx 1 {metric} 0 - a:{kB} {ordtxt} {enc_vmat(ts)}" if net else
+                             f"rpx {metric} 0 0 - a:{kB} {ordtxt} {enc_vmat(ts)}"))
+                impl.append(got)
 
     # ------------------------------------------------------------------
     # 4. CrossRecurrencePlot
@@ -652,7 +807,7 @@ def run(ctx):
         ctx.count(f"CrossRecurrencePlot:{kind}:{metric}" + (":emb" if emb else ""))
         sx, sy = q_states(x, emb), q_states(y, emb)
         try:
-            obj = CrossRecurrencePlot(x.copy(), y.copy(), **kw)
+            obj = CrossRecurrencePlot(caller_array(rng, x), caller_array(rng, y), **kw)
         except Exception as ex:  # noqa
             impl.append(exc_name(ex))
             ctx.case((req,), False)
@@ -731,7 +886,8 @@ def run(ctx):
         # (the guard compares with the raw length); nothing is claimed or modelled there
         in_corr = (not net) and abs(lag) <= N
         try:
-            obj = (JointRecurrenceNetwork if net else JointRecurrencePlot)(x.copy(), y.copy(), **kw)
+            obj = (JointRecurrenceNetwork if net else JointRecurrencePlot)(
+                caller_array(rng, x), caller_array(rng, y), **kw)
         except Exception as ex:  # noqa
             if in_corr:
                 reqs.append(req)
@@ -834,7 +990,7 @@ def run(ctx):
         sig = dict(cls="InterSystemRecurrenceNetwork", spec=kind,
                    embedded=bool(emb and emb[0] > 1))
         try:
-            obj = InterSystemRecurrenceNetwork(x.copy(), y.copy(), **kw)
+            obj = InterSystemRecurrenceNetwork(caller_array(rng, x), caller_array(rng, y), **kw)
         except Exception as ex:  # noqa
             impl.append(exc_name(ex))
             ctx.case((req,), False)
@@ -906,6 +1062,462 @@ def run(ctx):
                      f"set_fixed_* raised {type(ex).__name__}: {ex}", replay)
 
     # ------------------------------------------------------------------
+    # 6b. threshold_std, normalize, adaptive objects with processing order, histories of
+    #     setters on one object, public distance / quantile wrappers, caller dtypes
+    # ------------------------------------------------------------------
+    def states_after(ts, norm, emb):
+        """state vectors (Fractions) of the stored series; None = irrational std"""
+        if norm:
+            rows = q_normalize(ts)
+            if rows is None:
+                return None, None
+        else:
+            rows = q_states(ts, None)
+        if emb is None:
+            return rows, rows
+        # embed the exact rows (no float round trip: ties must stay ties)
+        dim, tau = emb
+        col = [r[0] for r in rows]
+        n_ = len(col) - (dim - 1) * tau
+        return rows, [[col[k + j * tau] for j in range(dim)] for k in range(max(n_, 0))]
+
+    def exact_R(metric, rows, st, spec):
+        """the statement for spec kinds t / s / r / l on complete data (matrix of 0/1)"""
+        D = q_dists(metric, st, st)
+        n = len(st)
+        if spec[0] == "t":
+            return q_matrix(metric, st, st, spec[1])
+        if spec[0] == "s":
+            var = q_var([v for r in rows for v in r])
+            return [[int(q_lt_std(metric, D[i][j], spec[1], var)) for j in range(n)]
+                    for i in range(n)]
+        if spec[0] == "r":
+            return q_rate_matrix(D, spec[1])[0]
+        if spec[0] == "l":
+            k = math.floor(spec[1] * (n - 1))
+            return [[int(v < sorted(D[i])[k]) for v in D[i]] for i in range(n)]
+        return None
+
+    def rows_distinct(metric, st):
+        D = q_dists(metric, st, st)
+        return all(len(set(r)) == len(r) for r in D)
+
+    def margin_ok(metric, rows, st, spec, exact, inexact=False):
+        """are all float decisions of this request safely away from a tie?  (exact data:
+        ties are decided identically in IEEE and in Q, nothing to exclude)"""
+        if exact:
+            return True
+        D = q_dists(metric, st, st)
+        if spec[0] in "rla":
+            # raw half-integer data: distances are exact; after an inexact normalisation
+            # distances that tie in Q may be separated by rounding
+            if not inexact:
+                return True
+            n_ = len(st)
+            if spec[0] == "r":
+                up = [D[i][j] for i in range(n_) for j in range(i)]
+                return len(set(up)) == len(up) and all(v != 0 for v in up)
+            return all(len(set(r)) == len(r) for r in D)
+        if spec[0] == "s":
+            var = q_var([v for r in rows for v in r])
+            if var is None:
+                return True
+            thr = float(spec[1]) * math.sqrt(float(var))
+        else:
+            thr = float(spec[1])
+        for r in D:
+            for d in r:
+                if d is None:
+                    continue
+                dv = math.sqrt(float(d)) if metric == "euclidean" else float(d)
+                if abs(dv - thr) <= 1e-4 * max(1.0, abs(thr)):
+                    return False
+        return True
+
+    SETTER = {"t": "set_fixed_threshold", "s": "set_fixed_threshold_std",
+              "r": "set_fixed_recurrence_rate", "l": "set_fixed_local_recurrence_rate",
+              "a": "set_adaptive_neighborhood_size"}
+    KW = {"t": "threshold", "s": "threshold_std", "r": "recurrence_rate",
+          "l": "local_recurrence_rate", "a": "adaptive_neighborhood_size"}
+
+    def gen_spec(kind, n_states):
+        if kind == "t":
+            return ("t", gen_eps(rng))
+        if kind == "s":
+            r = rng.random()
+            return ("s", Fr(0) if r < 0.05 else Fr(-1, 2) if r < 0.08 else Fr(rng.randrange(1, 13), 4))
+        if kind in "rl":
+            return (kind, gen_rate(rng))
+        return ("a", Fr(rng.randrange(0, max(n_states, 1))))
+
+    def enc_spec_x(spec):
+        return f"a:{int(spec[1])}" if spec[0] == "a" else enc_spec(spec)
+
+    def spec_arg(spec):
+        return int(spec[1]) if spec[0] == "a" else float(spec[1])
+
+    for c in range(170 * scale):
+        n = gen_len(rng, quick)
+        metric = rng.choice(METRICS)
+        norm = rng.random() < 0.45
+        exact = rng.random() < 0.75
+        emb = gen_emb(rng, 0.4)
+        d = 1 if emb is not None else rng.choice([1, 1, 2])
+        if exact:
+            ts = gen_exact_std(rng, n, d, wide=True)
+        else:
+            ts = gen_series(rng, n, d, span=rng.choice([2, 4, 6]))
+        mv = rng.random() < 0.15
+        if mv and not norm:
+            for i in range(n):
+                if rng.random() < 0.15:
+                    ts[i, rng.randrange(d)] = np.nan
+        net = rng.random() < 0.45 and not mv
+        cls = "RecurrenceNetwork" if net else "RecurrencePlot"
+        rows, st = states_after(ts, norm, emb)
+        if rows is None:
+            # irrational std: the exact model declines (and must say so); the float stream
+            # below covers these inputs with a margin
+            reqs.append(f"normalize {enc_vmat(ts)}")
+            impl.append("outside-model")
+            ctx.count("normalize:irrational-std (model declines)")
+            continue
+        n_st = len(st)
+        if emb is not None and n - (emb[0] - 1) * emb[1] < 1:
+            continue
+        if net and n_st <= 1:
+            continue
+        complete = not any(has_missing(st))
+        # the history: constructor + up to three setters on the same object
+        kinds = "tsrla" if complete else "tsrl"
+        hist = [gen_spec(rng.choice(kinds if not norm else "ttsrla"), n_st)
+                for _ in range(rng.choice([1, 2, 3, 4]))]
+        arr = caller_array(rng, ts if d > 1 or rng.random() < 0.5 else ts[:, 0])
+        arr0 = arr.copy()
+        obj = None
+        for step, spec in enumerate(hist):
+            order = None
+            if spec[0] == "a" and step > 0 and rng.random() < 0.6:
+                order = list(range(n_st))
+                rng.shuffle(order)
+            kw = dict(metric=metric, normalize=norm, missing_values=mv, silence_level=3)
+            if emb is not None:
+                kw.update(dim=emb[0], tau=emb[1])
+            replay = dict(cls=cls, time_series=ts.tolist(), dtype=str(arr.dtype), kwargs=dict(kw),
+                          history=[(SETTER[h[0]], spec_arg(h)) for h in hist[:step + 1]],
+                          order=order)
+            sig = dict(kind="matrix", cls=cls, spec=spec[0], metric=metric, normalize=norm,
+                       missing_values=mv, step="init" if step == 0 else "setter",
+                       embedded=emb is not None)
+            ctx.count(f"x:{cls}:{'init' if step == 0 else 'setter'}:{spec[0]}"
+                      + (":norm" if norm else "") + (":exact" if exact else ""))
+            try:
+                with np.errstate(all="ignore"):
+                    if step == 0:
+                        kw[KW[spec[0]]] = spec_arg(spec)
+                        obj = (RecurrenceNetwork if net else RecurrencePlot)(arr, **kw)
+                    elif order is not None:
+                        obj.set_adaptive_neighborhood_size(spec_arg(spec),
+                                                           order=np.array(order, dtype=np.int64))
+                    else:
+                        getattr(obj, SETTER[spec[0]])(spec_arg(spec))
+            except Exception as ex:  # noqa
+                ctx.fail(dict(sig, issue="raises", error=type(ex).__name__),
+                         f"{cls}: {SETTER[spec[0]] if step else '__init__'}({spec_arg(spec)}) raised "
+                         f"{type(ex).__name__}: {ex} for {n_st} state vectors", replay)
+                break
+            R = np.asarray(obj.recurrence_matrix())
+            ctx.case(("x", cls, metric, norm, mv, emb, arr0.tobytes().hex(), str(hist[:step + 1]),
+                      str(order)), nontrivial(R))
+            if not np.array_equal(arr, arr0, equal_nan=True) or arr.shape != arr0.shape:
+                ctx.fail(dict(sig, issue="caller-array-modified"),
+                         f"{cls} modified the caller's array", replay)
+                break
+            # correspondence (rows with tied distances: argsort order unspecified)
+            in_corr = margin_ok(metric, rows, st, spec, exact, norm) and \
+                (spec[0] != "a" or (complete and rows_distinct(metric, st)))
+            if in_corr:
+                ordtxt = "-" if order is None else ",".join(map(str, order))
+                if net:
+                    reqs.append(f"rnx {int(step > 0)} {metric} {int(norm)} {enc_emb(emb)} "
+                                f"{enc_spec_x(spec)} {ordtxt} {enc_vmat(ts)}")
+                    impl.append(f"N={int(obj.N)} A={enc_bmat(obj.adjacency)}")
+                else:
+                    reqs.append(f"rpx {metric} {int(mv)} {int(norm)} {enc_emb(emb)} "
+                                f"{enc_spec_x(spec)} {ordtxt} {enc_vmat(ts)}")
+                    impl.append(f"N={int(obj.N)} M={int(obj.N)} R={enc_bmat(R)}")
+            # oracle
+            if R.shape != (n_st, n_st) or int(obj.N) != n_st:
+                ctx.fail(dict(sig, issue="shape"),
+                         f"{cls}: matrix {R.shape}, N={obj.N}, {n_st} state vectors", replay)
+                break
+            miss = has_missing(st)
+            if mv and any(miss):
+                for i in range(n_st):
+                    if miss[i] and (R[i, :].any() or R[:, i].any()):
+                        ctx.fail(dict(sig, issue="missing-recurrent"),
+                                 f"{cls}({spec[0]}): state {i} holds a missing value but is recurrent",
+                                 dict(replay, state=i))
+                        break
+            if complete and spec[0] != "a" and margin_ok(metric, rows, st, spec, exact, norm):
+                exp = exact_R(metric, rows, st, spec)
+                if R.tolist() != exp:
+                    ctx.fail(dict(sig, issue="entries"),
+                             f"{cls} step {step} ({SETTER[spec[0]]}={spec_arg(spec)}): recurrence matrix "
+                             "differs from the thresholded distance matrix of the stored series",
+                             dict(replay, expected=enc_bmat(exp), observed=enc_bmat(R)))
+                    break
+            if complete and spec[0] == "a":
+                kA = int(spec[1])
+                neigh = R.sum(axis=1) - np.diag(R)
+                if not np.array_equal(R, R.T) or (kA <= n_st - 1 and (neigh < kA).any()):
+                    ctx.fail(dict(kind="adaptive", cls=cls, issue="count-or-symmetry"),
+                             f"{cls}.set_adaptive_neighborhood_size({kA}, order={order}): asymmetric or "
+                             f"a state with fewer than {kA} neighbours", dict(replay, R=enc_bmat(R)))
+                    break
+            if net:
+                e2 = R.copy()
+                np.fill_diagonal(e2, 0)
+                A2 = np.asarray(obj.adjacency)
+                if A2.shape != e2.shape or not np.array_equal(A2, e2):
+                    ctx.fail(dict(kind="network", cls=cls, issue="adjacency", method=SETTER[spec[0]],
+                                  step="init" if step == 0 else "setter"),
+                             f"{cls} step {step}: adjacency is not the recurrence matrix without diagonal",
+                             dict(replay, expected=enc_bmat(e2), observed=enc_bmat(A2)))
+                    break
+            if not (mv and any(miss)):
+                check_rqa(ctx, obj, R, cls, dict(spec=spec[0], missing=False, step=step), replay)
+            # public distance wrappers on the live object (cached between setters)
+            if complete and rng.random() < 0.5:
+                mm = rng.choice(METRICS)
+                ctx.count("x:distance_matrix wrapper")
+                with np.errstate(all="ignore"):
+                    Dm = np.asarray(obj.distance_matrix(mm) if rng.random() < 0.5
+                                    else getattr(obj, f"{mm}_distance_matrix")(), dtype=float)
+                De = q_dists(mm, st, st)
+                okD = Dm.shape == (n_st, n_st)
+                for i in range(n_st if okD else 0):
+                    for j in range(n_st):
+                        ev = math.sqrt(float(De[i][j])) if mm == "euclidean" else float(De[i][j])
+                        if abs(Dm[i, j] - ev) > 1e-5 * max(1.0, abs(ev)):
+                            okD = False
+                if not okD:
+                    ctx.fail(dict(kind="wrapper", cls=cls, method="distance_matrix", metric=mm),
+                             f"{cls}.distance_matrix('{mm}') differs from the metric of the state vectors",
+                             replay)
+                    break
+
+    # threshold_from_recurrence_rate (public static wrapper), 1-D and 2-D, NaN last
+    for c in range(30 * scale):
+        shape = rng.choice([(rng.randrange(1, 9),), (rng.randrange(1, 5), rng.randrange(1, 5))])
+        size = int(np.prod(shape))
+        vals = [rng.randrange(0, 12) / 2 for _ in range(size)]
+        if rng.random() < 0.2:
+            vals[rng.randrange(size)] = float("nan")
+        Darr = np.array(vals, dtype=rng.choice([np.float32, np.float64])).reshape(shape)
+        rr = gen_rate(rng)
+        D0 = Darr.copy()
+        t = RecurrencePlot.threshold_from_recurrence_rate(Darr, float(rr))
+        reqs.append(f"quantile {enc_fr(rr)} " + ",".join(enc_v(v) for v in vals))
+        impl.append(enc_v(t))
+        ctx.count("wrapper:threshold_from_recurrence_rate")
+        ctx.case(("quantile", str(vals), rr), size > 1)
+        fin = sorted(v for v in vals if not math.isnan(v))
+        k = math.floor(rr * (size - 1))
+        expq = fin[k] if k < len(fin) else float("nan")
+        if not ((math.isnan(expq) and math.isnan(float(t))) or float(t) == expq) or \
+                not np.array_equal(Darr, D0, equal_nan=True):
+            ctx.fail(dict(kind="wrapper", method="threshold_from_recurrence_rate"),
+                     f"threshold_from_recurrence_rate = {t}, floor(rr(N-1))-th smallest is {expq} "
+                     "(or the distance array was modified)", dict(distance=vals, rr=float(rr)))
+
+    # normalize_time_series at the boundary
+    for c in range(30 * scale):
+        n = gen_len(rng, quick)
+        d = rng.choice([1, 2, 3])
+        ts = gen_exact_std(rng, n, d, wide=True)
+        if rng.random() < 0.15:
+            ts[rng.randrange(n), rng.randrange(d)] = np.nan
+        work = ts.astype(np.float32)
+        with np.errstate(all="ignore"):
+            RecurrencePlot.normalize_time_series(work)
+        reqs.append(f"normalize {enc_vmat(ts)}")
+        impl.append(enc_vmat(work))
+        ctx.count("kernel:normalize")
+        ctx.case(("normalize", ts.tobytes().hex()), n > 1)
+
+    # joint plots / networks: threshold_std, normalize, network constructor and setters
+    for c in range(70 * scale):
+        n = rng.choice([2, 4, 5, 6, 7, 8, 9, 10])
+        lag = rng.choice([0, 0, 1, -1, 2, -2, 3, -3])
+        norm = rng.random() < 0.4
+        embx = gen_emb(rng, 0.3)
+        emby = gen_emb(rng, 1.0) if embx else None
+        mx, my = rng.choice(METRICS), rng.choice(METRICS)
+        x = gen_exact_std(rng, n, 1 if embx else rng.choice([1, 2]), wide=True)
+        y = gen_exact_std(rng, n, 1 if embx else rng.choice([1, 2]), wide=True)
+        kind = rng.choice("sst" if not norm else "tts")
+        sxs, sys_ = gen_spec(kind, n), gen_spec(kind, n)
+        net = rng.choice(["p", "n", "n"])
+        rowsx, stx = states_after(x, norm, embx)
+        rowsy, sty = states_after(y, norm, emby)
+        N = min(len(stx), len(sty))
+        side = N - abs(lag)
+        if side < (2 if net != "p" else 1):
+            continue
+        stx, sty = stx[:N], sty[:N]
+        kw = dict(metric=(mx, my), lag=lag, normalize=norm, silence_level=3)
+        if embx:
+            kw.update(dim=(embx[0], emby[0]), tau=(embx[1], emby[1]))
+        cls = "JointRecurrencePlot" if net == "p" else "JointRecurrenceNetwork"
+        ax, ay = caller_array(rng, x), caller_array(rng, y)
+        steps = [(sxs, sys_)] + ([(gen_spec(kind, n), gen_spec(kind, n))] if net != "p" else [])
+        obj = None
+        for step, (s1, s2) in enumerate(steps):
+            replay = dict(cls=cls, x=x.tolist(), y=y.tolist(), kwargs=dict(kw),
+                          history=[(KW[a[0]], float(a[1]), float(b[1])) for a, b in steps[:step + 1]])
+            sig = dict(cls=cls, spec=kind, lag_nonzero=lag != 0, normalize=norm,
+                       step="init" if step == 0 else "setter")
+            ctx.count(f"x:{cls}:{'init' if step == 0 else 'setter'}:{kind}" + (":norm" if norm else ""))
+            try:
+                if step == 0:
+                    kw2 = dict(kw)
+                    kw2[KW[kind]] = (float(s1[1]), float(s2[1]))
+                    obj = (JointRecurrencePlot if net == "p" else JointRecurrenceNetwork)(ax, ay, **kw2)
+                else:
+                    getattr(obj, SETTER[kind])((float(s1[1]), float(s2[1])))
+            except Exception as ex:  # noqa
+                ctx.fail(dict(sig, kind="construct", error=type(ex).__name__),
+                         f"{cls}(lag={lag}, {KW[kind]}) raised {type(ex).__name__}: {ex}", replay)
+                break
+            JR = np.asarray(obj.recurrence_matrix())
+            tag = "p" if net == "p" else ("n" if step == 0 else "s")
+            reqs.append(f"jrpx {tag} {mx} {my} {lag} {int(norm)} {enc_emb(embx)} {enc_emb(emby)} "
+                        f"{enc_spec(s1)} {enc_spec(s2)} {enc_vmat(x)} {enc_vmat(y)}")
+            impl.append(f"N={int(obj.N)} M={int(obj.N)} R={enc_bmat(JR)}" if net == "p" else
+                        f"N={int(obj.N)} A={enc_bmat(obj.adjacency)}")
+            ctx.case(("jx", tag, mx, my, lag, norm, embx, emby, x.tobytes().hex(), y.tobytes().hex(),
+                      str(steps[:step + 1])), nontrivial(JR))
+            if kind == "t":
+                Rx, Ry = q_matrix(mx, stx, stx, s1[1]), q_matrix(my, sty, sty, s2[1])
+            else:
+                vx = q_var([v for r in rowsx for v in r])
+                vy = q_var([v for r in rowsy for v in r])
+                Dx, Dy = q_dists(mx, stx, stx), q_dists(my, sty, sty)
+                Rx = [[int(q_lt_std(mx, v, s1[1], vx)) for v in r] for r in Dx]
+                Ry = [[int(q_lt_std(my, v, s2[1], vy)) for v in r] for r in Dy]
+            ox, oy = (0, lag) if lag >= 0 else (-lag, 0)
+            exp = [[Rx[i + ox][j + ox] & Ry[i + oy][j + oy] for j in range(side)] for i in range(side)]
+            if JR.shape != (side, side) or JR.tolist() != exp or int(obj.N) != side:
+                ctx.fail(dict(sig, kind="matrix", issue="entries"),
+                         f"{cls}(lag={lag}, {KW[kind]}) step {step}: JR (N={obj.N}) differs from "
+                         "Rx[i,j] * Ry[i+lag,j+lag]",
+                         dict(replay, expected=enc_bmat(exp), observed=enc_bmat(JR)))
+                break
+            if net != "p":
+                e2 = JR.copy()
+                np.fill_diagonal(e2, 0)
+                if not np.array_equal(np.asarray(obj.adjacency), e2):
+                    ctx.fail(dict(sig, kind="network", issue="adjacency",
+                                  method="__init__" if step == 0 else "setter"),
+                             f"{cls}(lag={lag}) step {step}: adjacency is not JR without its diagonal",
+                             dict(replay, expected=enc_bmat(e2), observed=enc_bmat(obj.adjacency)))
+                    break
+            check_rqa(ctx, obj, JR, cls, dict(lag_nonzero=lag != 0, step=step), replay)
+
+    # cross plots and inter-system networks with normalize=True and both float widths
+    for c in range(50 * scale):
+        n, m = rng.choice([2, 4, 5, 6, 7, 8, 9]), rng.choice([2, 4, 5, 6, 7, 8, 9])
+        norm = rng.random() < 0.7
+        emb = gen_emb(rng, 0.35)
+        d = 1 if emb is not None else rng.choice([1, 1, 2])
+        metric = rng.choice(METRICS)
+        x, y = gen_exact_std(rng, n, d, wide=True), gen_exact_std(rng, m, d, wide=True)
+        isrn = rng.random() < 0.5
+        kind = rng.choice("ttr")
+        taus = (emb[1], rng.choice([1, 2])) if (emb and isrn) else None
+        ex_, ey_ = ((emb[0], taus[0]), (emb[0], taus[1])) if taus else (emb, emb)
+        _, sx = states_after(x, norm, ex_)
+        _, sy = states_after(y, norm, ey_)
+        if len(sx) < 1 or len(sy) < 1:
+            continue
+        nx, ny = len(sx), len(sy)
+        ax, ay = caller_array(rng, x), caller_array(rng, y)
+        kw = dict(metric=metric, normalize=norm, silence_level=3)
+        if emb:
+            kw.update(dim=emb[0], tau=taus if isrn else emb[1])
+
+        def rmat(a, b, sp):
+            if kind == "t":
+                return q_matrix(metric, a, b, sp[1])
+            return q_rate_matrix(q_dists(metric, a, b), sp[1])[0]
+        if isrn:
+            specs = [gen_spec(kind, 0) for _ in range(3)]
+            kw[KW[kind]] = tuple(float(s_[1]) for s_ in specs)
+            replay = dict(cls="InterSystemRecurrenceNetwork", x=x.tolist(), y=y.tolist(), kwargs=kw)
+            ctx.count(f"x:InterSystemRecurrenceNetwork:{kind}" + (":norm" if norm else ""))
+            reqs.append(f"isrnx {metric} {int(norm)} {enc_emb(emb)} "
+                        f"{'-' if not taus else f'{taus[0]},{taus[1]}'} "
+                        + " ".join(enc_spec(s_) for s_ in specs) + f" {enc_vmat(x)} {enc_vmat(y)}")
+            try:
+                obj = InterSystemRecurrenceNetwork(ax, ay, **kw)
+            except Exception as ex:  # noqa
+                impl.append(exc_name(ex))
+                ctx.fail(dict(cls="InterSystemRecurrenceNetwork", kind="construct", normalize=norm,
+                              error=type(ex).__name__),
+                         f"InterSystemRecurrenceNetwork raised {type(ex).__name__}: {ex}", replay)
+                continue
+            A = np.asarray(obj.adjacency)
+            impl.append(f"N={int(obj.N)} A={enc_bmat(A)}")
+            ctx.case((reqs[-1],), nontrivial(A))
+            E = np.zeros((nx + ny, nx + ny), dtype=int)
+            E[:nx, :nx] = np.array(rmat(sx, sx, specs[0])).reshape(nx, nx)
+            E[nx:, nx:] = np.array(rmat(sy, sy, specs[1])).reshape(ny, ny)
+            E[:nx, nx:] = np.array(rmat(sx, sy, specs[2])).reshape(nx, ny)
+            E[nx:, :nx] = E[:nx, nx:].T
+            np.fill_diagonal(E, 0)
+            if A.shape != E.shape or not np.array_equal(A, E) or int(obj.N) != nx + ny:
+                ctx.fail(dict(cls="InterSystemRecurrenceNetwork", kind="matrix", issue="blocks",
+                              normalize=norm, spec=kind),
+                         "inter-system adjacency is not [[Rx, CRxy], [CRxy^T, Ry]] without diagonal",
+                         dict(replay, expected=enc_bmat(E), observed=enc_bmat(A)))
+        else:
+            sp = gen_spec(kind, 0)
+            kw[KW[kind]] = float(sp[1])
+            replay = dict(cls="CrossRecurrencePlot", x=x.tolist(), y=y.tolist(), kwargs=kw)
+            ctx.count(f"x:CrossRecurrencePlot:{kind}" + (":norm" if norm else ""))
+            reqs.append(f"crpx {metric} {int(norm)} {enc_emb(emb)} {enc_spec(sp)} "
+                        f"{enc_vmat(x)} {enc_vmat(y)}")
+            try:
+                obj = CrossRecurrencePlot(ax, ay, **kw)
+            except Exception as ex:  # noqa
+                impl.append(exc_name(ex))
+                ctx.fail(dict(cls="CrossRecurrencePlot", kind="construct", normalize=norm,
+                              error=type(ex).__name__),
+                         f"CrossRecurrencePlot raised {type(ex).__name__}: {ex}", replay)
+                continue
+            CR = np.asarray(obj.recurrence_matrix())
+            impl.append(f"N={int(obj.N)} M={int(obj.M)} R={enc_bmat(CR)}")
+            ctx.case((reqs[-1],), nontrivial(CR))
+            exp = rmat(sx, sy, sp)
+            if CR.shape != (nx, ny) or CR.tolist() != exp:
+                ctx.fail(dict(cls="CrossRecurrencePlot", kind="matrix", issue="entries",
+                              normalize=norm, spec=kind),
+                         "cross recurrence matrix differs from the definition on the stored series",
+                         dict(replay, expected=enc_bmat(exp), observed=enc_bmat(CR)))
+            with np.errstate(all="ignore"):
+                Dm = np.asarray(obj.distance_matrix(metric), dtype=float)
+            De = q_dists(metric, sx, sy)
+            if Dm.shape != (nx, ny) or any(
+                    abs(Dm[i, j] - (math.sqrt(float(De[i][j])) if metric == "euclidean"
+                                    else float(De[i][j]))) > 1e-5 * max(1.0, float(De[i][j]))
+                    for i in range(nx) for j in range(ny)):
+                ctx.fail(dict(kind="wrapper", cls="CrossRecurrencePlot", method="distance_matrix",
+                              metric=metric),
+                         "CrossRecurrencePlot.distance_matrix differs from the metric", replay)
+
+
+    # ------------------------------------------------------------------
     # 7. network strides at the model boundary (translated `A.flat[::self.N+1] = 0`)
     # ------------------------------------------------------------------
     for which in ("rn_init", "rn_threshold", "rn_threshold_std", "rn_rate", "rn_local",
@@ -941,12 +1553,24 @@ def run(ctx):
         ts = nprng.rand(n, d).astype(np.float32).astype(float)
         eps = float(nprng.rand()) * 1.2
         use_std = rng.random() < 0.4
-        ctx.count("float-stream" + (":threshold_std" if use_std else ""))
+        use_norm = rng.random() < 0.35
+        ctx.count("float-stream" + (":threshold_std" if use_std else "") + (":normalize" if use_norm else ""))
+        ts_in = ts
+        if use_norm:
+            # the statement on the normalised series, evaluated in float64
+            t64 = ts.astype(np.float64)
+            sd = t64.std(axis=0)
+            if (sd < 1e-3).any():
+                continue
+            ts = (t64 - t64.mean(axis=0)) / sd
+            eps = eps * 3
         if use_std:
-            obj = RecurrencePlot(ts.copy(), metric=metric, threshold_std=eps, silence_level=3)
+            obj = RecurrencePlot(caller_array(rng, ts_in), metric=metric, threshold_std=eps,
+                                 normalize=use_norm, silence_level=3)
             eff = eps * float(np.std(ts.astype(np.float64)))
         else:
-            obj = RecurrencePlot(ts.copy(), metric=metric, threshold=eps, silence_level=3)
+            obj = RecurrencePlot(caller_array(rng, ts_in), metric=metric, threshold=eps,
+                                 normalize=use_norm, silence_level=3)
             eff = eps
         R = np.asarray(obj.recurrence_matrix())
         st = q_states(ts, None)
@@ -956,13 +1580,86 @@ def run(ctx):
             for j in range(n):
                 dq = q_dist(metric, st[i], st[j])
                 dv = math.sqrt(dq) if metric == "euclidean" else float(dq)
-                if abs(dv - eff) < 1e-5 * max(1.0, eff):
+                if abs(dv - eff) < (1e-4 if use_norm else 1e-5) * max(1.0, eff):
                     continue      # inside the margin: no decision demanded
                 if int(dv < eff) != int(R[i, j]):
                     bad = (i, j, dv)
         if bad:
             ctx.fail(dict(kind="matrix", cls="RecurrencePlot", spec="std" if use_std else "t",
-                          metric=metric, issue="float-entries"),
+                          metric=metric, issue="float-entries", normalize=use_norm),
                      f"R[{bad[0]},{bad[1]}] wrong for distance {bad[2]} and threshold {eff}",
-                     dict(cls="RecurrencePlot", time_series=ts.tolist(), metric=metric,
+                     dict(cls="RecurrencePlot", time_series=ts_in.tolist(), metric=metric,
+                          normalize=use_norm,
                           threshold_std=eps if use_std else None, threshold=None if use_std else eps))
+
+    # ------------------------------------------------------------------
+    # 9. implementation-only: exact power-of-two rescaling (and shifting) of the data with
+    #    the threshold rescaled accordingly must not change a single entry; rates, local
+    #    rates, neighbourhood sizes and threshold_std are scale-free
+    # ------------------------------------------------------------------
+    for c in range(50 * scale):
+        n = gen_len(rng, quick)
+        metric = rng.choice(METRICS)
+        emb = gen_emb(rng, 0.35)
+        d = 1 if emb is not None else rng.choice([1, 2, 3])
+        if emb is not None and n - (emb[0] - 1) * emb[1] < 1:
+            continue
+        ts = gen_series(rng, n, d, span=rng.choice([2, 6]))
+        k2 = rng.choice([-20, -12, -5, -1, 1, 4, 11, 20])
+        f2 = 2.0 ** k2
+        kind = rng.choice("tsrla")
+        spec = gen_spec(kind, max(n - ((emb[0] - 1) * emb[1] if emb else 0), 1))
+        shift = rng.choice([0.0, 0.0, 8.0, -64.0, 1024.0]) if kind != "s" else 0.0
+        which = rng.choice(["rp", "rp", "crp", "jrp", "isrn"]) if kind in "tr" else "rp"
+        ctx.count(f"rescale:{which}:{kind}:2^{k2}" + (":shift" if shift else ""))
+
+        def build(a, b, scale_):
+            kw = dict(metric=metric, silence_level=3)
+            if emb is not None:
+                kw.update(dim=emb[0], tau=emb[1])
+            arg = float(spec[1]) * (scale_ if kind == "t" else 1.0)
+            if kind == "a":
+                arg = int(spec[1])
+            if which == "rp":
+                kw[KW[kind]] = arg
+                return np.asarray(RecurrencePlot(caller_array(rng, a), **kw).recurrence_matrix())
+            if which == "crp":
+                kw[KW[kind]] = arg
+                return np.asarray(CrossRecurrencePlot(caller_array(rng, a), caller_array(rng, b),
+                                                      **kw).recurrence_matrix())
+            if which == "jrp":
+                kw = dict(metric=(metric, metric), silence_level=3, lag=rng_lag)
+                if emb is not None:
+                    kw.update(dim=(emb[0], emb[0]), tau=(emb[1], emb[1]))
+                kw[KW[kind]] = (arg, arg)
+                return np.asarray(JointRecurrencePlot(caller_array(rng, a), caller_array(rng, b),
+                                                      **kw).recurrence_matrix())
+            if emb is not None:
+                kw["tau"] = (emb[1], emb[1])
+            kw[KW[kind]] = (arg, arg, arg)
+            return np.asarray(InterSystemRecurrenceNetwork(caller_array(rng, a), caller_array(rng, b),
+                                                           **kw).adjacency)
+        y = gen_series(rng, n, d, span=6)
+        n_st = n - ((emb[0] - 1) * emb[1] if emb else 0)
+        rng_lag = rng.choice([0, 1, -1]) if n_st >= 3 else 0
+        if which == "isrn" and n_st < 1:
+            continue
+        try:
+            with np.errstate(all="ignore"):
+                R1 = build(ts, y, 1.0)
+                R2 = build((ts + shift) * f2, (y + shift) * f2, f2)
+        except Exception as ex:  # noqa
+            if not (which == "isrn" and n_st < 2) and not isinstance(ex, ZeroDivisionError):
+                ctx.fail(dict(kind="rescale", cls=which, spec=kind, error=type(ex).__name__),
+                         f"{which}: construction raised {type(ex).__name__}: {ex}",
+                         dict(cls=which, series=ts.tolist(), y=y.tolist(), factor=f2, shift=shift))
+            continue
+        ctx.case(("rescale", which, kind, metric, emb, ts.tobytes().hex(), k2, shift, str(spec)),
+                 nontrivial(R1))
+        if R1.shape != R2.shape or not np.array_equal(R1, R2):
+            ctx.fail(dict(kind="rescale", cls=which, spec=kind, metric=metric),
+                     f"{which}({KW[kind]}): rescaling the data by 2^{k2} (shift {shift}) with the "
+                     "threshold rescaled accordingly changes the recurrence matrix",
+                     dict(cls=which, series=ts.tolist(), y=y.tolist(), factor=f2, shift=shift,
+                          kwargs=dict(metric=metric, emb=emb, spec=[kind, float(spec[1])]),
+                          R1=enc_bmat(R1), R2=enc_bmat(R2)))
